@@ -71,3 +71,25 @@ Definition line_explore_noguard := explore line_chain norm_chain forb_direct lin
 
 Definition direct_cert : cert := cert_of direct_chain norm_chain forb_direct direct_crit (2 * 1000).
 Definition line_cert : cert := cert_of line_chain norm_chain forb_line line_crit (20 * 1000).
+
+(* ------------------------------------------------------------------ well-escapedness (C07) *)
+(* escape_char as "normalise, then map each character": the chain the certificate relates it to *)
+Definition percharchain : chain := [([92], [92; 92]); ([59], [92; 59]); ([44], [92; 44]); ([10], [92; 110])].
+Definition esc_spec_chain : chain := norm_chain ++ percharchain.
+Definition esc_map (c : N) : list N :=
+  if c =? 92 then [92; 92] else if c =? 59 then [92; 59] else if c =? 44 then [92; 44]
+  else if c =? 10 then [92; 110] else [c].
+Definition esc_crit := crit_of escape_char_chain esc_spec_chain [].
+Definition esc_cert : cert := cert_of escape_char_chain esc_spec_chain [] esc_crit (2 * 1000).
+
+(* a TEXT is well escaped: read left to right, a backslash takes the next character with it; outside such
+   pairs there is no LF, no semicolon and no comma *)
+Fixpoint well_escaped_from (esc : bool) (t : list N) : bool :=
+  match t with
+  | [] => true
+  | c :: r => if esc then well_escaped_from false r
+              else if c =? 92 then well_escaped_from true r
+              else if (c =? 10) || (c =? 59) || (c =? 44) then false
+              else well_escaped_from false r
+  end.
+Definition well_escaped (t : list N) : bool := well_escaped_from false t.
